@@ -67,7 +67,8 @@ func main() {
 		options  []v2.Option
 		err      error
 	)
-	if *libv2 {
+	if *libv2 || *gitDiffDriver {
+		// The git diff driver only exists for the v2 library.
 		options, err = parseMetadataV2()
 	} else {
 		metadata, err = parseMetadata()
